@@ -82,6 +82,9 @@ func (m *Mutex) Unlock() {
 		w.Fail("fatal error: sync: unlock of unlocked mutex")
 	}
 	m.locked = false
+	// a point *after* the release: code that follows an Unlock without further synchronisation (a racy refactoring)
+	// can then be overtaken by the threads the Unlock released
+	w.Point("mutex.unlocked", nil)
 }
 
 type RWMutex struct {
